@@ -151,7 +151,7 @@ Theorem lambda_creation_sim : forall prog fc m e ce L stk gl sc g kk k st h o fr
 Proof.
   intros prog fc m e ce L stk gl sc g kk k st h o fr pc HMS Henv Hsub Hgp Hk Hc.
   destruct (env_rel_addrs fc m e ce L stk gl sc (fvs_fd TL g) Henv Hsub) as (addrs & HR & HL).
-  assert (R := closure_run X prog FT TL fc ce stk gl h o fr L g addrs pc kk Hgp HR Hk Hc).
+  assert (R := closure_run X prog FT TL fc ce stk gl h o fr L g addrs pc kk (or_intror Hgp) HR Hk Hc).
   set (h' := h ++ [HVec addrs; HFun (length h) (faddr kk)]) in *.
   set (m' := m ++ [Some (S (length h))]).
   exists (length (cells st)), (snd (alloc st (CFun g e))), (S (length h)), h', m'.
@@ -321,7 +321,7 @@ Proof.
     - exists addrs. auto. }
   assert (HA1 : Forall2 (fun fd addrs => Forall2 (resolves fc L' ce' Sk gl) (fvs_fd TL fd) addrs) fds addrss).
   { eapply Forall2_impl; [|exact HA]. intros ? ? [? ?]; auto. }
-  destruct (sibling_run X prog FT TL fc ce' gl stk h o fr L' fds addrss ks pc Hgp HA1 HK Hc)
+  destruct (sibling_run X prog FT TL fc ce' gl stk h o fr L' fds addrss ks pc (or_intror Hgp) HA1 HK Hc)
     as (h' & Hst & Hlow & Hfill).
   exists h'. assert (Hext : mext m m') by (eexists; reflexivity).
   assert (Hpre : hpre h h') by exact Hlow.
